@@ -20,7 +20,7 @@ FULL = sorted(set(PACK + MEDIA + LINKS + ["group", "freeform", "table", "connect
 
 def configs(thorough):
     if thorough:
-        return [("pack", PACK, 4, [1, 2, 3], None), ("media", MEDIA, 4, [1, 5], None), ("links", LINKS, 4, [2, 5], None),
+        return [("pack", PACK, 4, [1, 2, 3], None), ("media", MEDIA, 4, [1, 5], None), ("links", LINKS, 4, [5], None), ("links2", LINKS, 3, [2], None),
                 ("sim", FULL, 10, [1, 2, 3, 4, 5], "num=600")]
     return [("pack", PACK, 3, [1, 2], None), ("media", MEDIA, 3, [5], None), ("links", LINKS, 3, [5], None),
             ("sim", FULL, 9, [1, 2, 3, 4, 5], "num=60")]
@@ -47,44 +47,53 @@ def run(pid, mine, cfgs, rule, level="model_checking", facets_on=True):
                          "depth": depth, "alphabet": alpha, "inits": inits, "simulate": sim, "tlc_wall_s": round(r.wall, 1)}
             jobs += [("%s:%d" % (name, i), p, facets_on) for i, p in enumerate(paths)]
             ces += ce
-    traces = C.replay(jobs)
-    if selftest:
-        t = json.loads(json.dumps(next(x for x in traces if len(x["steps"]) > 2 and x["saves"] and x["saves"][-1]["z"])))
-        z = t["saves"][-1]["z"]
-        z["refs"].append({"n": z["refs"][0]["n"], "rids": ["rIdNoSuchRelationship"]})
-        t["saves"] = [t["saves"][-1]]
-        sl = next(s for s in t["steps"][-1]["t"]["slides"]) if t["steps"][-1]["t"]["slides"] else None
-        bad, _ = C.validate([t], work, tag="selftest")
-        ok = len(bad) == 1 and any("RefsResolve" in b["failing"] for b in bad[0]["bad"])
-        print("SELFTEST %s: added a dangling r:id reference to %s -> %s" % ("ok" if ok else "FAILED", t["id"], bad))
-        if not ok:
-            raise E.MachineryError("selftest failed")
-    bad, tot = C.validate(traces, work)
-    byid = {t["id"]: t for t in traces}
-    for v in bad:
-        t = byid[v["id"]]
-        for b in v["bad"]:
-            fl = sorted(set(b["failing"]) & mine)
-            if not fl:
-                continue
-            if b["at"] == "step":
-                site = t["steps"][b["k"] - 1]["a"]
-                sname = site["op"] + ("[%s]" % site["kind"] if site.get("kind") else "")
-                if "NewShapeIdsFresh" in fl and site["op"] == "addShape":
-                    # class of the history: turbo mode switched on for this slide, then an id from the group/freeform allocator
-                    prev = t["h"][1:b["k"] - 1]
-                    ton = [i for i, x in enumerate(prev) if x["op"] == "setTurbo" and x["k"] == site["k"]]
-                    if ton and any(x["op"] == "addShape" and x["k"] == site["k"] and x["kind"] in ("group", "freeform") for x in prev[ton[0]:]) \
-                            and site["kind"] not in ("group", "freeform"):
-                        sname += "|turbo-then-group-or-freeform"
-            else:
-                last = t["h"][min(b["k"], len(t["h"])) - 1] if b["k"] - 1 < len(t["h"]) else t["h"][-1]
-                sname = "save-after-" + (last["op"] if "op" in last else "?")
-                errs = [s.get("err") or (s["z"] or {}).get("reopenErr") for s in t["saves"] if s["at"] == b["k"]]
-            rep.reject("%s@%s" % ("+".join(fl), sname),
-                       {"module": "Deck", "id": t["id"], "h": t["h"], "failing": b,
-                        "detail": errs if b["at"] == "saved" else t["steps"][b["k"] - 1]},
-                       "history %s" % json.dumps([{k: v for k, v in a.items() if v not in (0, "", None)} if a["op"] != "open" else {"op": "open", "deck": a["init"]["deck"], "pnums": a["init"]["pnums"]} for a in t["h"]])[:700])
+    # replay and validate in chunks so that thorough runs (10^5 histories) never hold more than one chunk of traces in memory
+    tot, ntraces, smp = {}, 0, None
+    CH = 2500
+    for c0 in range(0, max(len(jobs), 1), CH):
+        traces = C.replay(jobs[c0:c0 + CH])
+        if selftest and c0 == 0:
+            t = json.loads(json.dumps(next(x for x in traces if len(x["steps"]) > 2 and x["saves"] and x["saves"][-1]["z"] and x["saves"][-1]["z"]["refs"])))
+            z = t["saves"][-1]["z"]
+            z["refs"].append({"n": z["refs"][0]["n"], "rids": ["rIdNoSuchRelationship"]})
+            t["saves"] = [t["saves"][-1]]
+            bad, _ = C.validate([t], work, tag="selftest")
+            ok = len(bad) == 1 and any("RefsResolve" in b["failing"] for b in bad[0]["bad"])
+            print("SELFTEST %s: added a dangling r:id reference to %s -> %s" % ("ok" if ok else "FAILED", t["id"], str(bad)[:300]))
+            if not ok:
+                raise E.MachineryError("selftest failed")
+        bad, tt = C.validate(traces, work, tag="obs%d_" % (c0 // CH))
+        for k, v in tt.items():
+            tot[k] = tot.get(k, 0) + v
+        ntraces += len(traces)
+        if smp is None and traces:
+            smp = {"history": traces[len(traces) // 2]["h"][1:], "initial": traces[len(traces) // 2]["h"][0]["init"]}
+        byid = {t["id"]: t for t in traces}
+        for v in bad:
+            t = byid[v["id"]]
+            for b in v["bad"]:
+                fl = sorted(set(b["failing"]) & mine)
+                if not fl:
+                    continue
+                if b["at"] == "step":
+                    site = t["steps"][b["k"] - 1]["a"]
+                    sname = site["op"] + ("[%s]" % site["kind"] if site.get("kind") else "")
+                    if "NewShapeIdsFresh" in fl and site["op"] == "addShape":
+                        # class of the history: turbo mode switched on for this slide, then an id from the group/freeform allocator
+                        prev = t["h"][1:b["k"] - 1]
+                        ton = [i for i, x in enumerate(prev) if x["op"] == "setTurbo" and x["k"] == site["k"]]
+                        if ton and any(x["op"] == "addShape" and x["k"] == site["k"] and x["kind"] in ("group", "freeform") for x in prev[ton[0]:]) \
+                                and site["kind"] not in ("group", "freeform"):
+                            sname += "|turbo-then-group-or-freeform"
+                else:
+                    last = t["h"][min(b["k"], len(t["h"])) - 1] if b["k"] - 1 < len(t["h"]) else t["h"][-1]
+                    sname = "save-after-" + (last["op"] if "op" in last else "?")
+                    errs = [s.get("err") or (s["z"] or {}).get("reopenErr") for s in t["saves"] if s["at"] == b["k"]]
+                rep.reject("%s@%s" % ("+".join(fl), sname),
+                           {"module": "Deck", "id": t["id"], "h": t["h"], "failing": b,
+                            "detail": errs if b["at"] == "saved" else t["steps"][b["k"] - 1]},
+                           "history %s" % json.dumps([{k: v for k, v in a.items() if v not in (0, "", None)} if a["op"] != "open" else {"op": "open", "deck": a["init"]["deck"], "pnums": a["init"]["pnums"]} for a in t["h"]])[:700])
+        del traces, byid
     if ces:
         rep.note("design level: %d histories where the transcribed allocators assign a non-fresh id (e.g. %s); their real traces are in the replay set"
                  % (len(ces), json.dumps([a["op"] + ":" + str(a.get("kind", "")) for a in ces[0][1:]])))
@@ -96,11 +105,10 @@ def run(pid, mine, cfgs, rule, level="model_checking", facets_on=True):
         for a in ("addShape", "addSlide", "reopen"):
             if not ops.get(a):
                 raise E.MachineryError("vacuous: operation %s in no history (%s)" % (a, ops))
-    smp = traces[len(traces) // 2]
-    cov = {"states": max(states, 1), "transitions": max(trans, 1), "traces_validated_against_impl": len(traces),
+    cov = {"states": max(states, 1), "transitions": max(trans, 1), "traces_validated_against_impl": ntraces,
            "real_steps_validated": tot.get("steps", 0), "saved_packages_validated": tot.get("saves", 0),
            "configs": per, "operation_counts_in_histories": ops,
-           "samples": [{"history": smp["h"][1:], "initial": smp["h"][0]["init"]}],
+           "samples": [smp],
            "rule": rule}
     return rep.finish(level, cov, ["TLC 1.8", "observation reads the slide list from presentation.xml + relationships (never prs.slides)",
                                     "saved packages are read with zipfile+lxml only; re-open facets through the public read API",
